@@ -219,7 +219,8 @@ def make_case(seed, shard, i):
     for k in range(r.randint(2, 5)):
         rows.append([r.choice(["A1", "7", " p q", "x,y", "5.5"]), r.choice(["B1", "0", "b b", ""]), r.choice(["C", "c-c", "#z"]), r.choice(["D!", "dd", "9"])])
     gate = r.choice(["", "", '#b == "B1"', 'not(#b == "B1")'])
-    return {"chunks": chunks, "arr": arr, "qual": qual, "rows": rows, "gate": gate}
+    target = r.choice([None, None, "audit"])
+    return {"chunks": chunks, "arr": arr, "qual": qual, "rows": rows, "gate": gate, "target": target}
 
 
 def run_case(case, agg):
@@ -230,7 +231,10 @@ def run_case(case, agg):
     with open("pr.csv", "w", newline="") as f:
         f.write(lang.rows_to_text(rows))
     pq = "print" + ("." + qual if qual else "")
-    prog = f'~ owner: team-a note: v1 id: pr1 ~ $pr.csv[1*][@x = #a @n = count_lines() @t.k = #d @z.k = mod(count_lines(), 2) @z.b = equals(#a, "A1") @z.e = #b push("st", #b) push("st", #a) {pq}("{tmpl}") {gate}]'
+    target = case.get("target")
+    tgt = f', "{target}"' if target else ""
+    stream = target or "default"
+    prog = f'~ owner: team-a note: v1 id: pr1 ~ $pr.csv[1*][@x = #a @n = count_lines() @t.k = #d @z.k = mod(count_lines(), 2) @z.b = equals(#a, "A1") @z.e = #b push("st", #b) push("st", #a) {pq}("{tmpl}"{tgt}) {gate}]'
     c, cap = env.new_csvpath(["collect", "print"])
     cap2 = env.CapturePrinter()
     c.add_printer(cap2)
@@ -257,8 +261,11 @@ def run_case(case, agg):
         want = [expected_text(chunks, s) for s in execs]
     except (KeyError, IndexError, ValueError):
         return "undecided", None
-    got = [s for (n_, s) in cap.named if n_ == "default"]
-    if got != [s for (n_, s) in cap2.named if n_ == "default"]:
+    got = [s for (n_, s) in cap.named if n_ == stream]
+    if [x for x in cap.named if x[0] != stream]:
+        w["other_streams"] = [x for x in cap.named if x[0] != stream][:3]
+        return "printed-to-wrong-stream", w
+    if got != [s for (n_, s) in cap2.named if n_ == stream]:
         w["printer1"] = got[:3]
         w["printer2"] = [s for (n_, s) in cap2.named][:3]
         return "printers-disagree", w
@@ -295,7 +302,7 @@ def run_case(case, agg):
 
 def shape_of(case):
     kinds = "".join("T" if c[0] == "text" else ("." if c[0] == "dot" else "R" + c[1][0] + ("k" if c[3] else "")) for c in case["chunks"])
-    return f"{case['arr']}|{kinds}|{case['qual']}|{bool(case['gate'])}"
+    return f"{case['arr']}|{kinds}|{case['qual']}|{bool(case['gate'])}|{case.get('target')}"
 
 
 def run_one(case, agg):
